@@ -17,6 +17,7 @@
     (`Cfg`): the harness reports the real values, the theorems hold for all of them.
 -/
 import ClientGoVerif.Model.Bytes
+import ClientGoVerif.Generated.LatchCommit
 namespace CGV.Latch
 open CGV
 
@@ -348,6 +349,60 @@ def WaitsFor (cfg : Cfg) (s : State) (a b : LockId) : Prop :=
 inductive WaitChain (cfg : Cfg) (s : State) : LockId → LockId → Prop
   | single {a b : LockId} : WaitsFor cfg s a b → WaitChain cfg s a b
   | cons {a b c : LockId} : WaitsFor cfg s a b → WaitChain cfg s b c → WaitChain cfg s a c
+
+/-! ## the way `KVTxn.Commit` uses the scheduler
+
+  `lock := TxnLatches().Lock(startTS, keys)`; `defer TxnLatches().UnLock(lock)`; `if lock.IsStale() { return
+  ErrWriteConflictInLatch }`; `err = committer.execute(ctx)`; `if err == nil { lock.SetCommitTS(commitTS) }`.
+  As a program of the lock: take acquire steps (the first call by the client thread, after a wake-up by the
+  scheduler goroutine) until `Lock` returns; then unlock — with commit ts 0 when stale or when the commit failed —
+  and the scheduler releases slot by slot.  Whether the unlock also happens on the stale early return is read
+  from the source on every run (`Gen.commitUnlockOnEveryExit`). -/
+
+/-- the next step of the thread(s) serving lock `lk` inside `Commit`; `none`: blocked, finished, or (if the source
+    did not defer the unlock before the stale return) returned without unlocking -/
+def nextAction (l : LockId) (lk : Lock) (commitTS : Nat) : Option Action :=
+  match lk.phase with
+  | .acquiring => some (.acquire l)
+  | .woken => some (.acquire l)
+  | .acquired =>
+    if lk.isStale then
+      (if Gen.commitUnlockOnEveryExit then some (.unlock l 0) else none)
+    else some (.unlock l commitTS)
+  | .releasing => some (.releaseSlot l)
+  | .waiting => none
+  | .done => none
+
+/-- run the steps of lock `l` until it blocks or is finished -/
+def driveLock (cfg : Cfg) : Nat → State → LockId → Nat → State
+  | 0, s, _, _ => s
+  | fuel + 1, s, l, commitTS =>
+    match s.locks l with
+    | none => s
+    | some lk =>
+      match nextAction l lk commitTS with
+      | none => s
+      | some a =>
+        match step cfg s a with
+        | none => s
+        | some s' => driveLock cfg fuel s' l commitTS
+
+/-- `Commit` of the transaction whose lock request is `l` (already generated), running alone:
+    `commitTS` = 0 when the commit itself fails -/
+def commitTxn (cfg : Cfg) (s : State) (l : LockId) (commitTS : Nat) : State :=
+  match s.locks l with
+  | none => s
+  | some lk => driveLock cfg (3 * lk.keys.length + 4) s l commitTS
+
+/-- a sequence of transactions (start ts, write set, commit ts), each committing after the previous returned -/
+def commitSeq (cfg : Cfg) : State → List (Nat × List Key × Nat) → State
+  | s, [] => s
+  | s, (startTS, keys, commitTS) :: rest =>
+    commitSeq cfg (commitTxn cfg (genLock cfg s startTS keys) s.nlocks commitTS) rest
+
+/-- no node has an owner and nobody is queued -/
+def LatchesFree (s : State) : Prop :=
+  (∀ i n, n ∈ (s.slots i).queue → n.holder = none) ∧ ∀ i, (s.slots i).waiting = []
 
 /-- every request is finished -/
 def AllDone (s : State) : Prop := ∀ l lk, s.locks l = some lk → lk.phase = .done
